@@ -105,7 +105,7 @@ Definition succs (c : cfg) (s : state) : list state :=
 (* None = gave up: out of fuel, or more than [max_states] compatible states.  The driver keeps the
    unobservable part of a schedule small (one "dark" call at a time), so this is not expected to happen; if
    it does it is reported as a mismatch - loudly - rather than accepted or skipped. *)
-Definition max_states : nat := 3000.
+Definition max_states : nat := 1500.
 Fixpoint closure (fuel : nat) (c : cfg) (seen frontier : list state) : option (list state) :=
   match frontier with
   | [] => Some seen
